@@ -304,13 +304,19 @@ def check_module(case, ctx):
         with ctx.sut("C07/module/simulate"):
             torch.manual_seed(case["seed"] + 7)
             deriv.simulate(n_paths=case["n_paths"] + (case["seed"] // 2) % 2, init_state=init)
-        with ctx.sut("C07/module/price"):
-            mod.price()
-            mod2.price()
-        ctx.cls("module:reused-after-resimulate")
+        if bool((deriv.ul().spot > 0).all()) and bool(torch.isfinite(deriv.ul().volatility).all()):
+            with ctx.sut("C07/module/price"):
+                mod.price()
+                mod2.price()
+            ctx.cls("module:reused-after-resimulate")
     with ctx.sut("C07/module/simulate"):
         torch.manual_seed(case["seed"])
         deriv.simulate(n_paths=case["n_paths"], init_state=init)
+    if not (bool((deriv.ul().spot > 0).all()) and bool(torch.isfinite(deriv.ul().spot).all()) and bool(torch.isfinite(deriv.ul().volatility).all())):
+        # a coarse Euler step of the local-volatility model left the positive half-line: no price is defined for such a state
+        ctx.exclude("simulated-state-outside-quantified-domain")
+        ctx.cls("skipped:non-positive-spot")
+        return
     with ctx.sut("C07/module/price"):
         got = mod.price()
         got2 = mod2.price()
@@ -343,8 +349,13 @@ def check_module(case, ctx):
     partial = {"log_moneyness": s - 0.0625, "time_to_maturity": t + 0.03125, "volatility": v * 1.25}
     if m is not None:
         partial["max_log_moneyness"] = m + 0.125  # a running maximum supplied by the caller (still above the spot)
+    state_ok = all(bool(torch.isfinite(x_).all()) for x_ in (s, t, v) + ((m,) if m is not None else ()))
+    if not state_ok:
+        # an Euler step of the local-volatility model with a coarse grid can leave the positive half-line: log-moneyness is NaN / -inf
+        # there, outside the domain the statement quantifies over (the pricing functions reject such inputs)
+        ctx.exclude("element-outside-quantified-domain")
     for arg, val in partial.items():
-        if torch.isnan(val).any():
+        if not state_ok or torch.isnan(val).any():
             continue
         with ctx.sut("C07/module/price"):
             gp = mod.price(**{arg: val})
